@@ -9,15 +9,22 @@ package spec
 //@   ensures iff: result <==> dnsByte(r)
 //@   assigns nothing
 
+// the identifier grammars that are regular expressions: the patterns the package compiles at start-up
+//@ func spec.init
+//@   property C17
+//@   nosafety
+//@   ensures domainless-room-id-grammar: domainlessRoomIDRegexp == extcall("regexp.MustCompile", "^[A-Za-z0-9_-]{43}$")
+//@   ensures user-localpart-grammar: validUsernameRegex == extcall("regexp.MustCompile", "^[0-9a-z_\\-=./]+$")
+
 //@ func splitServerName
-//@   property C17, C18:safety
+//@   property C13, C17, C18:safety
 //@   ensures host: result[0] == snHost(string(serverName))
 //@   ensures port: result[1] == snPort(string(serverName))
 //@   ensures port-range: result[1] >= 0 - 1 && result[1] <= 65535
 //@   assigns nothing
 
 //@ func ParseAndValidateServerName
-//@   property C17, C18:safety
+//@   property C13, C17, C18:safety
 //@   ensures iff: valid <==> serverNameOK(string(serverName))
 //@   ensures parts: valid ==> (host == snHost(string(serverName)) && port == snPort(string(serverName)))
 //@   ensures port-range: port >= 0 - 1 && port <= 65535
